@@ -302,6 +302,12 @@ def handle (j : Json) : Except String Json := do
     let (r, st) := runMain c inputs {}
     pure (Json.mkObj [("writes", Json.arr (r.writes.map (fun w => Json.mkObj [("path", SL w.path), ("content", S w.content)])).toArray),
       ("stdout", S r.stdout), ("status", statusJson st)])
+  | "spec" =>
+    -- the structural specification (Spec.lean) for a decorated tree under a configuration
+    let m ← moduleOf (← j.getObjVal? "module")
+    let cfg := parseCfg (match j.getObjVal? "cfg" with | .ok v => v | .error _ => Json.mkObj [])
+    pure (Json.mkObj [("entries", Json.arr ((m.entries cfg).map entryJson).toArray), ("wf", itemsWf false m.items),
+      ("documented_class", itemsHaveDocumentedClass m.items)])
   | "rstops" =>
     let hc ← getStr j "hc"
     let title ← getStr j "title"
